@@ -75,6 +75,13 @@ def feasible_succs(f, b):
         if c[0] == "c":
             succ = t.get("succ")
             return [succ[0]] if int(c[1]) != 0 else [succ[1]]
+        C = f.inst(tuple(c)) if c[0] == "i" else None
+        if C is not None and C.op == "icmp" and C.get("pred") in ("eq", "ne") and all(o[0] in ("c", "n") for o in C.ops):
+            # a comparison of two constants left behind by inlining (a helper's 'if (len != 0)' called with a constant length)
+            va, vb = [0 if o[0] == "n" else int(o[1]) for o in C.ops]
+            truth = (va == vb) if C.get("pred") == "eq" else (va != vb)
+            succ = t.get("succ")
+            return [succ[0]] if truth else [succ[1]]
     return list(f.blocks[b].succs)
 
 
